@@ -1,4 +1,4 @@
-package oj
+package gen
 
 import (
 	"github.com/ohler55/ojg/internal/vref"
@@ -196,56 +196,17 @@ const (
 	stepParser
 )
 
-var stepFENames = [...]string{"oj.Validator", "oj.Tokenizer", "oj.Parser"}
+var stepFENames = [...]string{"-", "-", "gen.Parser"}
 
 // newStepMachine builds a fresh instance exactly as the reader entry point
 // (ValidateReader / Load / ParseReader) does before its first Read.
 func newStepMachine(fe int) *stepMachine {
-	switch fe {
-	case stepValidator:
-		v := &Validator{OnlyOne: true}
-		v.stack = make([]byte, 0, stackMinSize)
-		v.noff, v.line, v.mode = -1, 1, valueMap
-		return &stepMachine{
-			feed:     v.validateBuffer,
-			mode:     func() string { return v.mode },
-			nextMode: func() string { return v.nextMode },
-			setNext:  func(m string) { v.nextMode = m },
-			ri:       func() int { return v.ri },
-			setRi:    func(i int) { v.ri = i },
-			kinds:    func() []byte { return v.stack },
-			setPos:   func(line, noff int) { v.line, v.noff = line, noff },
-			setRune:  func(rune) {},
-			bottom:   func(b byte) bool { v.stack[0] = b; return true },
-			onlyOne:  func() bool { return v.OnlyOne },
-		}
-	case stepTokenizer:
-		t := &Tokenizer{}
-		t.OnlyOne = true
-		t.handler = &ZeroHandler{}
-		t.tmp = make([]byte, 0, tmpInitSize)
-		t.starts = make([]byte, 0, 16)
-		t.noff, t.line, t.mode, t.mi = -1, 1, valueMap, 0
-		return &stepMachine{
-			feed:     t.tokenizeBuffer,
-			mode:     func() string { return t.mode },
-			nextMode: func() string { return t.nextMode },
-			setNext:  func(m string) { t.nextMode = m },
-			ri:       func() int { return t.ri },
-			setRi:    func(i int) { t.ri = i },
-			kinds:    func() []byte { return t.starts },
-			setPos:   func(line, noff int) { t.line, t.noff = line, noff },
-			setRune:  func(r rune) { t.rn = r },
-			bottom:   func(b byte) bool { t.starts[0] = b; return true },
-			onlyOne:  func() bool { return t.OnlyOne },
-		}
-	}
 	p := &Parser{}
 	p.OnlyOne = true
-	p.stack = make([]any, 0, stackInitSize)
+	p.stack = make([]Node, 0, stackInitSize)
 	p.tmp = make([]byte, 0, tmpInitSize)
 	p.starts = make([]int, 0, 16)
-	p.maps = make([]map[string]any, 0, 16)
+	p.maps = make([]Object, 0, 16)
 	p.noff, p.line, p.mode, p.mi = -1, 1, valueMap, 0
 	return &stepMachine{
 		feed:     p.parseBuffer,
@@ -330,7 +291,7 @@ func stepHarness(fe int) {
 	// number states of the value-building front-ends: also from a prefix whose
 	// digits no longer fit the integer accumulators
 	big := false
-	if fe != stepValidator && sub.state >= rsInt && sub.state <= rsExp && vx.Choose("big", 2) == 1 {
+	if sub.state >= rsInt && sub.state <= rsExp && vx.Choose("big", 2) == 1 {
 		prefix, big = bigPrefix(sub, stack), true
 	}
 	vx.Key("big", big)
@@ -428,9 +389,6 @@ func stepHarness(fe int) {
 	vx.Cover("accepting-end", end == vref.Accept)
 }
 
-// VerifStep_Validator / _Tokenizer / _Parser: one inductive step of the
-// front-end's per-buffer function from every canonical state, against the
-// reference automaton.
-func VerifStep_Validator() { stepHarness(stepValidator) }
-func VerifStep_Tokenizer() { stepHarness(stepTokenizer) }
-func VerifStep_Parser()    { stepHarness(stepParser) }
+// VerifStep_GenParser: one inductive step of gen.Parser.parseBuffer from every
+// canonical state, against the reference automaton.
+func VerifStep_GenParser() { stepHarness(stepParser) }
